@@ -17,10 +17,10 @@ package checks
 import (
 	"fmt"
 	"io"
-	"strings"
 	"net"
 	"net/netip"
 	"os"
+	"strings"
 	"syscall"
 	"time"
 
